@@ -270,8 +270,10 @@ def _note_hang(R, what, ds):
 
 
 def impl_write(R, ds, ops, strategy, name, info=None):
+    if isinstance(strategy, str) and strategy.startswith("child"):
+        return impl_write_child(R, ds, ops, strategy, name, info)
     try:
-        with watchdog(10.0):
+        with watchdog(10.0 if not ds.get("large") else 120.0):
             return _impl_write(R, ds, ops, strategy, name, info)
     except ImplHang:
         _note_hang(R, "store_chunk ... close()", ds)
@@ -799,3 +801,52 @@ def gen_bigpayload_dataset(rng, i):
             "ie": ["raw", "gzip"][i % 2], "de": "raw", "subset": "big-payloads",
             "sel": [list(c) for c in coords[:len(lens)]],
             "payloads": [rng.randbytes(n) for n in lens], "omit": []}
+
+
+# ------------------------------------------------------------------ writers in a child interpreter
+def impl_write_child(R, ds, ops, strategy, name, info=None):
+    """strategy = "child[:O][:noclose][:mem]": the dataset is written by
+    harness/props/shard_child.py in a fresh interpreter (PYTHONOPTIMIZE=1 with
+    :O; no explicit close() with :noclose, the accessor's atexit hook then
+    closes; default buffering strategy unless :mem).  Same result tuple as
+    impl_write."""
+    import subprocess
+    from harness.common import REPO_SRC, PY
+    flags = strategy.split(":")[1:]
+    d = os.path.join(R.tmp, name)
+    info = info or mkinfo(ds["sizes"], ds["cs"], ds["m"], ds["s"], ds["p"], ds["ie"], ds["de"],
+                          omit=ds.get("omit", ()))
+    os.makedirs(R.tmp, exist_ok=True)
+    spec_path = os.path.join(R.tmp, name + ".spec.json")
+    res_path = os.path.join(R.tmp, name + ".result.json")
+    with open(spec_path, "w") as f:
+        json.dump({"dir": d, "info": info, "close": "noclose" not in flags,
+                   "strategy": "in memory" if "mem" in flags else None, "result": res_path,
+                   "ops": [[KEY, list(bbox(ds["cs"], x, y, z)), bytes(pl).hex()] for (x, y, z, pl) in ops]}, f)
+    env = {k: v for k, v in os.environ.items() if k != "PYTHONOPTIMIZE"}
+    env.update(PYTHONPATH=REPO_SRC, TMPDIR=R.tmp, PYTHONDONTWRITEBYTECODE="1")
+    if "O" in flags:
+        env["PYTHONOPTIMIZE"] = "1"
+    child = os.path.join(os.path.dirname(os.path.abspath(__file__)), "shard_child.py")
+    R.count("child:" + ("-O" if "O" in flags else "plain") + (":exit-without-close" if "noclose" in flags else ":close"))
+    try:
+        r = subprocess.run([PY, "-B", child, spec_path], env=env, stdout=subprocess.PIPE,
+                           stderr=subprocess.PIPE, timeout=60)
+    except subprocess.TimeoutExpired:
+        _note_hang(R, "child writer", ds)
+        return [["Hang"]], ["Hang"], {}, d
+    outs, closed = [["NoResult"]], ["Crash", f"ChildExit{r.returncode}"]
+    if os.path.exists(res_path):
+        with open(res_path) as f:
+            res = json.load(f)
+        outs = res["outs"]
+        if ("O" in flags) != bool(res["optimize"]):
+            raise RuntimeError("child interpreter did not run with the requested optimisation level")
+        closed = res["closed"] if res["closed"] != "not-called" else ["ok", "none"]
+    if r.returncode != 0:
+        closed = ["Crash", f"ChildExit{r.returncode}", r.stderr.decode(errors="replace")[-300:]]
+    files = _read_dir(os.path.join(d, KEY))
+    os.makedirs(d, exist_ok=True)
+    with open(os.path.join(d, "info"), "w") as f:
+        json.dump(info, f)
+    return outs, closed, files, d
